@@ -50,3 +50,22 @@ Fixpoint mismatches_from (n : nat) (cs : list ccase) : list (nat * nat) :=
               end
   end.
 Definition mismatches := mismatches_from 0.
+
+(* ---------------- handleEvent dispatch ---------------- *)
+(* the harness calls the real connEventHandler.handleEvent with every combination of EPOLLRDHUP / EPOLLIN /
+   EPOLLOUT and records which of onRemoteClose / onReadReady / onWriteReady ran *)
+Record dcase := { dc_rdhup : bool; dc_in : bool; dc_out : bool; dc_ran_close : bool; dc_ran_read : bool; dc_ran_write : bool }.
+Definition ran (c : hcall) (l : list hcall) : bool :=
+  existsb (fun x => match x, c with
+                    | CRemoteClose, CRemoteClose | CReadReady, CReadReady | CWriteReady, CWriteReady => true
+                    | _, _ => false end) l.
+Definition dispatch_ok (d : dcase) : bool :=
+  let l := handle_event {| ev_rdhup := dc_rdhup d; ev_in := dc_in d; ev_out := dc_out d |} in
+  Bool.eqb (ran CRemoteClose l) (dc_ran_close d) && Bool.eqb (ran CReadReady l) (dc_ran_read d)
+  && Bool.eqb (ran CWriteReady l) (dc_ran_write d).
+Fixpoint dispatch_mismatches_from (n : nat) (ds : list dcase) : list nat :=
+  match ds with
+  | [] => []
+  | d :: r => if dispatch_ok d then dispatch_mismatches_from (S n) r else n :: dispatch_mismatches_from (S n) r
+  end.
+Definition dispatch_mismatches := dispatch_mismatches_from 0.
